@@ -440,8 +440,9 @@ impl BroCatli {
         if let Some(mut new_stream_pending) = self.new_stream_pending {
             let flush_result = self.flush_previous_stream(out_bytes, out_offset);
             if let BroCatliResult::Success = flush_result {
-                if usize::from(new_stream_pending.num_bytes_read)
-                    < new_stream_pending.bytes_so_far.len()
+                if new_stream_pending.num_bytes_written.is_none()
+                    && usize::from(new_stream_pending.num_bytes_read)
+                        < new_stream_pending.bytes_so_far.len()
                 {
                     // take exactly the look-ahead that sufficient() asks for, so that the decision
                     // made on the header cannot depend on how the input happens to be sliced
@@ -453,7 +454,8 @@ impl BroCatli {
                     }
                     self.new_stream_pending = Some(new_stream_pending); // write back changes
                 }
-                if !new_stream_pending.sufficient() {
+                if new_stream_pending.num_bytes_written.is_none() && !new_stream_pending.sufficient()
+                {
                     return BroCatliResult::NeedsMoreInput;
                 }
                 if out_bytes.len() == *out_offset {
